@@ -130,7 +130,7 @@ pub fn set_menu(full: bool) -> Vec<(u8, u8)> {
         v.push((4, 1));
         v
     } else {
-        vec![(0, 2), (0, 3), (0, 4), (0, 0), (1, 2), (2, 2), (4, 1)]
+        vec![(0, 2), (0, 3), (0, 4), (0, 0), (1, 2), (1, 0), (2, 2), (3, 2), (4, 1)]
     }
 }
 
@@ -140,6 +140,17 @@ pub fn opts_p() -> BOpts {
 pub fn opts_q() -> BOpts {
     BOpts::defaults()
 }
+/// R: two entries per hunk, small blocks, combined small files (multi-entry hunks for stitching).
+pub fn opts_r() -> BOpts {
+    BOpts::new(2, 8, 6)
+}
+pub fn opts_of(idx: u8) -> BOpts {
+    match idx {
+        0 => opts_p(),
+        1 => opts_q(),
+        _ => opts_r(),
+    }
+}
 
 // ---------------------------------------------------------------------------------------------
 // Events
@@ -148,8 +159,8 @@ pub fn opts_q() -> BOpts {
 pub enum Op {
     /// Backup with options P (0) or Q (1).
     Backup(u8),
-    /// Backup with options P stopped before its m-th mutating storage operation.
-    Crashed(usize),
+    /// Backup with options P (0) or R (2) stopped before its m-th mutating storage operation.
+    Crashed(u8, usize),
     Delete(Vec<u32>),
     Gc,
     /// A block referenced by nothing appears (seed construction only).
@@ -171,7 +182,7 @@ impl Ev {
         let o = match &self.op {
             Op::Backup(0) => "backup(P)".to_string(),
             Op::Backup(_) => "backup(Q)".to_string(),
-            Op::Crashed(m) => format!("backup(P) killed before mutating op {m}"),
+            Op::Crashed(o, m) => format!("backup({}) killed before mutating op {m}", if *o == 0 { "P" } else { "R" }),
             Op::Delete(b) => format!("delete {b:?}"),
             Op::Gc => "gc".to_string(),
             Op::Garbage(c) => format!("garbage block {}", crate::util::show_bytes(c)),
@@ -181,7 +192,7 @@ impl Ev {
     pub fn to_json(&self) -> Value {
         let op = match &self.op {
             Op::Backup(o) => json!({"backup": o}),
-            Op::Crashed(m) => json!({"crashed": m}),
+            Op::Crashed(o, m) => json!({"crashed": m, "opts": o}),
             Op::Delete(b) => json!({"delete": b}),
             Op::Gc => json!("gc"),
             Op::Garbage(c) => json!({"garbage": crate::util::hex(c)}),
@@ -196,7 +207,7 @@ impl Ev {
         } else if let Some(b) = o.get("backup") {
             Op::Backup(b.as_u64().unwrap() as u8)
         } else if let Some(m) = o.get("crashed") {
-            Op::Crashed(m.as_u64().unwrap() as usize)
+            Op::Crashed(o.get("opts").and_then(|x| x.as_u64()).unwrap_or(0) as u8, m.as_u64().unwrap() as usize)
         } else if let Some(d) = o.get("delete") {
             Op::Delete(d.as_array().unwrap().iter().map(|x| x.as_u64().unwrap() as u32).collect())
         } else {
@@ -317,7 +328,7 @@ pub fn execute(
     let at = || format!("seed {} after {:?}", parent.seed, child_path_desc(parent, ev));
     match &ev.op {
         Op::Backup(o) => {
-            let opts = if *o == 0 { opts_p() } else { opts_q() };
+            let opts = opts_of(*o);
             let icpt = if with_log { Some(Icpt::new(dir, Plan::none())) } else { None };
             let out = run::do_backup(dir, &srcs.dir_for(&tree), &opts, icpt.as_ref(), flavor);
             if let Some(i) = &icpt {
@@ -335,18 +346,19 @@ pub fn execute(
             }
             backup = Some(out);
         }
-        Op::Crashed(m) => {
+        Op::Crashed(o, m) => {
+            let copts = opts_of(*o);
             // Probe the fault-free trace on a copy to find the m-th mutating operation.
             let probe = dir.with_extension("probe");
             parent.snap.store(&probe);
             let icpt = Icpt::new(&probe, Plan::none());
-            let _ = run::do_backup(&probe, &srcs.dir_for(&tree), &opts_p(), Some(&icpt), Flavor::Current);
+            let _ = run::do_backup(&probe, &srcs.dir_for(&tree), &copts, Some(&icpt), Flavor::Current);
             let _ = std::fs::remove_dir_all(&probe);
             let trace = icpt.take_log();
             let muts: Vec<usize> = trace.iter().filter(|r| r.is_mutating()).map(|r| r.idx).collect();
             let k = *muts.get(*m)?;
             let icpt = Icpt::new(dir, Plan::crash(k, false));
-            let out = run::do_backup(dir, &srcs.dir_for(&tree), &opts_p(), Some(&icpt), Flavor::Current);
+            let out = run::do_backup(dir, &srcs.dir_for(&tree), &copts, Some(&icpt), Flavor::Current);
             log = icpt.take_log();
             if !out.crashed {
                 problems.push(Violation::new(
@@ -383,7 +395,7 @@ pub fn execute(
         }
     }
     child.snap = Snap::load(dir);
-    if let Op::Crashed(_) = ev.op {
+    if let Op::Crashed(..) = ev.op {
         if child.snap.has_head(new) {
             child.heads.insert(new, tree);
         }
@@ -465,7 +477,7 @@ pub fn seeds(srcs: &SrcCache) -> Vec<HState> {
             ],
         ),
         // complete + incomplete band (killed before its BANDTAIL is far away: after two hunks)
-        mk(2, &[b(0), Ev { set: Some((0, 2)), op: Op::Crashed(6) }]),
+        mk(2, &[b(0), Ev { set: Some((0, 2)), op: Op::Crashed(0, 6) }]),
         // band ids with a gap
         mk(
             3,
@@ -590,7 +602,7 @@ pub fn explore(
                 "{}:{}",
                 match &ev.op {
                     Op::Backup(_) => "backup",
-                    Op::Crashed(_) => "crashed",
+                    Op::Crashed(..) => "crashed",
                     Op::Delete(_) => "delete",
                     Op::Gc => "gc",
                     Op::Garbage(_) => "garbage",
@@ -623,14 +635,31 @@ pub fn explore(
                 }
             }
             if let (Item::Group(_, set), Some(trace)) = (&items[i], trace_p) {
-                let muts: Vec<&OpRec> = trace.iter().filter(|r| r.is_mutating()).collect();
-                let points: Vec<usize> = if all_crash_points {
-                    (0..muts.len()).collect()
-                } else {
-                    representative_points(&muts)
+                let src = match set {
+                    Some((slot, v)) => st.src.set(*slot, *v),
+                    None => st.src,
                 };
-                for m in points {
-                    do_event(w, st, &Ev { set: *set, op: Op::Crashed(m) });
+                for copt in [0u8, 2u8] {
+                    let trace_c = if copt == 0 {
+                        trace.clone()
+                    } else {
+                        // trace of the same backup under options R
+                        let probe = scratches[w].fresh("pr");
+                        st.snap.store(&probe);
+                        let icpt = Icpt::new(&probe, Plan::none());
+                        let _ = run::do_backup(&probe, &srcs.dir_for(&src.tree()), &opts_r(), Some(&icpt), Flavor::Current);
+                        let _ = std::fs::remove_dir_all(&probe);
+                        icpt.take_log()
+                    };
+                    let muts: Vec<&OpRec> = trace_c.iter().filter(|r| r.is_mutating()).collect();
+                    let points: Vec<usize> = if all_crash_points {
+                        (0..muts.len()).collect()
+                    } else {
+                        representative_points(&muts)
+                    };
+                    for m in points {
+                        do_event(w, st, &Ev { set: *set, op: Op::Crashed(copt, m) });
+                    }
                 }
             }
             scratches[w].clear();
@@ -718,7 +747,7 @@ pub fn replay(case: &Value, on_transition: OnTransition, on_state: Option<OnStat
 }
 
 pub fn is_backup_event(ev: &Ev) -> bool {
-    matches!(ev.op, Op::Backup(_) | Op::Crashed(_))
+    matches!(ev.op, Op::Backup(_) | Op::Crashed(..))
 }
 
 pub fn pre_nonempty(r: &OpRec) -> bool {
